@@ -127,8 +127,7 @@ Proof.
     intros H; inversion H; subst. eapply fr_trans; [|eapply fr_deliver_user; exact E]. change s1 with (fst (s1, k)). rewrite <- En. apply fr_next_serial.
   - destruct (next_serial s) as [s1 k] eqn:En. destruct (deliver_user s1 t (a_tok a) (UProbe n k)) as [s2 o2] eqn:E.
     intros H; inversion H; subst. eapply fr_trans; [|eapply fr_deliver_user; exact E]. change s1 with (fst (s1, k)). rewrite <- En. apply fr_next_serial.
-  - destruct (snd =? rNone); [intros H; inversion H; subst; apply fr_refl|].
-    destruct (next_serial s) as [s1 k] eqn:En. destruct (deliver_user s1 snd (a_tok a) (UProbe n k)) as [s2 o2] eqn:E.
+  - destruct (next_serial s) as [s1 k] eqn:En. destruct (deliver_user s1 snd (a_tok a) (UProbe n k)) as [s2 o2] eqn:E.
     intros H; inversion H; subst. eapply fr_trans; [|eapply fr_deliver_user; exact E]. change s1 with (fst (s1, k)). rewrite <- En. apply fr_next_serial.
   - destruct (next_serial s) as [s1 k] eqn:En. destruct (send_each s1 (a_tok a) (a_children a) n k) as [s2 o2] eqn:E.
     intros H; inversion H; subst. eapply fr_trans; [|eapply fr_send_each; exact E]. change s1 with (fst (s1, k)). rewrite <- En. apply fr_next_serial.
